@@ -1,5 +1,6 @@
 import Drivers.Wire
 import Model.Timeout
+import Model.SharedStorage
 
 /-! Driver for C14: one request = one scenario (evaluator ops and/or `search` calls).
 
@@ -135,8 +136,113 @@ def handleCheck (j : Json) : Except String Json := do
     ("badMonotone", firstBad (fun jb => monotoneB jb.log)),
     ("badClassified", firstBad (fun jb => !jb.gathered || jb.tie || (classifiedB jb && jb.valueKept)))]
 
+/-! ### several evaluators on one storage (`Model/SharedStorage.lean`)
+
+`{"op":"world","Ws":[2,1],"hpo":true,"specs":[…],
+  "acts":[{"e":0,"op":"search","n":-1,"strict":false,"timeout":2,"reps":[[[0],[]],[[1],[]]],"drain":[[2],[]],"delays":[]},
+          {"e":1,"op":"gather","all":true,"size":0,"rep":[],"orep":[0,1,2]},{"e":1,"op":"other","orep":[]},
+          {"e":0,"op":"timeout","t":3},{"e":0,"op":"submit","k":2}, …]}`  (`e` = the evaluator that acts)
+→ `{"ok":true,"outs":[{"err":…,"stop":…,"now":…,"nresults":…,"njobs":…},…],"jobs":[…],"results":[[…],[…]],"now":…}` -/
+
+def jPair (j : Json) : Except String (List Nat × List Nat) := do
+  let a ← j.getArr?
+  match a.toList with
+  | [x, y] => return (← jList jNat x, ← jList jNat y)
+  | _ => throw "expected [local, other]"
+
+def runAct (s : Ev) (j : Json) : Except String (Ev × Json) := do
+  let op ← (← field j "op").getStr?
+  match op with
+  | "search" =>
+    let n ← jInt (← field j "n")
+    let strict ← jBool (← field j "strict")
+    let t ← jOptNat (fieldD j "timeout" Json.null)
+    let reps ← jList jPair (← field j "reps")
+    let drain ← jPair (fieldD j "drain" (Json.arr #[Json.arr #[], Json.arr #[]]))
+    let delays ← jList jNat (fieldD j "delays" (Json.arr #[]))
+    let r := searchO (step s (.askDelays delays)) { maxEvals := n, strict := strict, timeout := t } reps drain
+    return (r.1, opOut none (some (stopName r.2)) r.1)
+  | "gather" =>
+    let all ← jBool (← field j "all")
+    let size ← jNat (fieldD j "size" (nat 0))
+    let rep ← jList jNat (← field j "rep")
+    let orep ← jList jNat (fieldD j "orep" (Json.arr #[]))
+    let r := gatherO s all size rep orep
+    return (r.1, opOut (r.2.map gerrName) none r.1)
+  | "other" =>
+    let orep ← jList jNat (fieldD j "orep" (Json.arr #[]))
+    match gatherOther s orep with
+    | some s' => return (s', opOut none none s')
+    | none => return (s, opOut (some "badEnv") none s)
+  | _ => runOp s j
+
+def handleWorld (j : Json) : Except String Json := do
+  let Ws ← jList jNat (← field j "Ws")
+  let hpo ← jBool (fieldD j "hpo" true)
+  let specs ← jList jSpec (← field j "specs")
+  let acts ← (← field j "acts").getArr?
+  let mut w := winit Ws hpo specs
+  let mut outs : Array Json := #[]
+  for a in acts do
+    let k ← jNat (← field a "e")
+    match w.evs[k]? with
+    | none => throw s!"no evaluator {k}"
+    | some l =>
+      let (s', out) ← runAct (view w l) a
+      w := put w k s'
+      outs := outs.push out
+  return Json.mkObj [("ok", true), ("outs", Json.arr outs), ("jobs", Json.arr (w.jobs.map jobJson).toArray),
+    ("results", Json.arr (w.evs.map (fun l => ofNats l.results)).toArray),
+    ("running", Json.arr (w.evs.map (fun l => ofNats l.running)).toArray), ("now", nat w.now)]
+
+def jRow (j : Json) : Except String (Nat × Status) := do
+  let a ← j.getArr?
+  match a.toList with
+  | [i, st] => return (← jNat i, ← statusOfCode (← jNat st))
+  | _ => throw "row must be [job id, status code]"
+
+def jTable (j : Json) : Except String TableObs := do
+  return { nJobs := ← jNat (← field j "nJobs"), rows := ← jList jRow (← field j "rows") }
+
+/-- `{"op":"checkshared","jobs":[…JobObs…],"tables":[{"nJobs":4,"rows":[[0,2],[1,4],…]},…]}`: the verified checker
+of a multi-evaluator history, the value of its conjuncts and the first offender of each (for the fingerprint) -/
+def handleCheckShared (j : Json) : Except String Json := do
+  let jobs ← jList jJobObs (← field j "jobs")
+  let tables ← jList jTable (← field j "tables")
+  let o : SharedObs := { jobs := jobs, tables := tables }
+  let idxs := List.range jobs.length
+  let badMono := idxs.find? (fun i => match jobs[i]? with | some jb => !monotoneB jb.log | none => false)
+  let tidx := List.range tables.length
+  let badTable := tidx.find? (fun t => match tables[t]? with | some tb => !checkTable jobs tb | none => false)
+  let detail : Json := match badTable with
+    | none => Json.null
+    | some t =>
+      match tables[t]? with
+      | none => Json.null
+      | some tb =>
+        let ob : Obs := { jobs := jobs.take tb.nJobs, results := tb.rows.map (·.1), complete := true }
+        let ids := List.range ob.jobs.length
+        let firstBad (p : JobObs → Bool) : Json :=
+          match ids.find? (fun i => match ob.jobs[i]? with | some jb => !p jb | none => false) with
+          | some i => nat i
+          | none => Json.null
+        Json.mkObj [("table", nat t),
+          ("once", decide ob.results.Nodup && ob.results.all (fun i => decide (i < ob.jobs.length))),
+          ("complete", ids.all (fun i => ob.results.contains i)),
+          ("terminal", ob.results.all (fun i => match ob.jobs[i]? with | some jb => terminalB jb.log | none => true)),
+          ("classified", ob.jobs.all (fun jb => !jb.gathered || jb.tie || (classifiedB jb && jb.valueKept))),
+          ("badClassified", firstBad (fun jb => !jb.gathered || jb.tie || (classifiedB jb && jb.valueKept))),
+          ("reached", tb.rows.all (rowReachedB jobs)),
+          ("badRow", match tb.rows.find? (fun r => !rowReachedB jobs r) with | some r => nat r.1 | none => Json.null)]
+  return Json.mkObj [("ok", true), ("check", checkShared o),
+    ("monotone", jobs.all (fun jb => monotoneB jb.log)),
+    ("badMonotone", match badMono with | some i => nat i | none => Json.null),
+    ("tablesOk", tables.all (checkTable jobs)), ("badTable", detail)]
+
 def handle (j : Json) : Except String Json := do
   if (fieldD j "op" Json.null) == Json.str "checklog" then return ← handleCheck j
+  if (fieldD j "op" Json.null) == Json.str "checkshared" then return ← handleCheckShared j
+  if (fieldD j "op" Json.null) == Json.str "world" then return ← handleWorld j
   let W ← jNat (← field j "W")
   let hpo ← jBool (fieldD j "hpo" false)
   let specs ← jList jSpec (← field j "specs")
